@@ -5,8 +5,16 @@ import sendcorr_common as sc
 
 
 def run(ctx):
-    n = 400 if ctx.thorough() else 45
+    n = 400 if ctx.thorough() else 36
     proof_ok, detail = True, {}
+    if ctx.replay:
+        # a replay file names the seed and the scenario; all scenarios are deterministic functions of the seed
+        try:
+            rp = json.load(open(ctx.replay))
+            ctx.seed = int(rp.get("seed", ctx.seed))
+            ctx.log("replaying %s: %s" % (ctx.replay, rp.get("how") or rp.get("broken")))
+        except Exception as e:
+            ctx.log("cannot read replay file: %s" % e)
     ok, out = ctx.regen(["arith", "sendside"])
     if not ok:
         proof_ok = False
